@@ -9,7 +9,7 @@
    (any running transfer, any store, any callback log) unless stated otherwise. *)
 From Coq Require Import ZArith List Bool.
 From CV Require Import Base.Val Base.Bytes Base.Tys Gen.Tables Gen.SdoTables Model.Codec Model.RefClient
-  Model.SdoServer Proofs.SdoServer_proofs.
+  Model.SdoServer Proofs.SdoServer_proofs Gen.Src Proofs.Src_eq_sdo.
 Import ListNotations.
 Open Scope Z_scope.
 
@@ -108,8 +108,19 @@ Example C02_nv_one_response_per_request :
   s_store (fst (run_frames nv_dict nv_rcb (fresh_state []) nv_hist)) = [((0x2001, 0), [9; 1])].
 Proof. repeat split; vm_compute; reflexivity. Qed.
 
+(* Tie to the source text: SdoServer.segmented_upload as translated from the CURRENT source by tools/py2coq.py
+   (Gen/Src.v, regenerated on every run) computes the command byte (toggle, unused-byte count, last-segment flag)
+   and the next toggle of the model's segmented_upload; a toggle mismatch is the abort 0x05030000 in both. *)
+Theorem C02_source_segmented_upload_is_model : forall st command buf, s_buf st = Some buf ->
+  match src_server_segmented_upload command (s_toggle st) (zlen buf) with
+  | None => segmented_upload st command = (st, Abort AB_TOGGLE)
+  | Some (c, t) => exists data st', segmented_upload st command = (st', Ok [c :: data]) /\ s_toggle st' = t
+  end.
+Proof. exact src_server_segmented_upload_eq. Qed.
+
 Print Assumptions C02_upload_exact.
 Print Assumptions C02_download_exact.
 Print Assumptions C02_download_then_upload.
 Print Assumptions C02_one_response_per_request.
 Print Assumptions C02_step_invariant.
+Print Assumptions C02_source_segmented_upload_is_model.
